@@ -52,7 +52,8 @@ func (r *NodeManagement) processReadBindingData(message *api.Message) error {
 
 func (r *NodeManagement) handleMsgBindingData(message *api.Message) error {
 	switch message.CmdClassifier {
-	case model.CmdClassifierTypeCall:
+	// the function is announced as readable
+	case model.CmdClassifierTypeCall, model.CmdClassifierTypeRead:
 		return r.processReadBindingData(message)
 
 	default:
